@@ -421,6 +421,45 @@ def alias_cases(ctx, r, lines, expect, speclines, meta):
     ctx.tick('alias object histories', ctx.scale(300, 3000))
 
 
+def slice_table(ctx, lines, expect, speclines, meta, errcls):
+    """`Variables(l)[slice]` against CPython list slicing and the compiled model, exhaustively over
+    n = 0..4 labels x start, stop in {None, -6..6} x step in {None, 0, +-1, +-2, +-3}"""
+    base = ['a', 2, 0, 1]
+    vals = [None] + list(range(-6, 7))
+    n_cases = 0
+    for n in range(5):
+        l = base[:n]
+        for a in vals:
+            for b in vals:
+                for c in (None, 0, 1, -1, 2, -2, 3, -3):
+                    sl = slice(a, b, c)
+                    v = Variables(l)
+                    lines.append('clear'); expect.append('ok ' + state(Variables())); speclines.append('ok '); meta.append(('slice-table', ()))
+                    lines.append('extend 1 ' + labs(l)); expect.append('ok ' + state(v)); speclines.append('ok ' + ','.join(lab(x) for x in l)); meta.append(('slice-table', (f'Variables({l!r})',)))
+                    try:
+                        want = l[sl]
+                    except ValueError:
+                        want = None
+                    try:
+                        w = v[sl]; got = list(w)
+                    except ValueError:
+                        w = None; got = None
+                    n_cases += 1
+                    ctx.case(('slice-table', n, a, b, c), nontrivial=bool(want))
+                    if got != want or (w is not None and (len(w) != len(want) or not (w == want))):
+                        ctx.fail('property', 'Variables.slice', 'exhaustive slice table', f'Variables({l!r})[{sl!r}] gives {got!r}, the list gives {want!r}',
+                                 repro=f'from dimod.variables import Variables\nassert list(Variables({l!r})[{sl!r}]) == {l!r}[{sl!r}]')
+                        return
+                    lines.append('slice ' + ' '.join('-' if x is None else str(x) for x in (a, b, c)))
+                    if w is None:
+                        errcls[len(expect)] = 'ValueError'
+                        expect.append('err ' + state(v)); speclines.append('err ' + ','.join(lab(x) for x in l))
+                    else:
+                        expect.append('ok ' + state(w)); speclines.append('ok ' + ','.join(lab(x) for x in want))
+                    meta.append(('slice-table', (f'Variables({l!r})[{sl!r}]',)))
+    ctx.tick('slice table', n_cases)
+
+
 def repro(hist):
     lines = ['from dimod.variables import Variables', 'import numpy as np, pickle', 'from numpy import int64, float32, float64', 'v = Variables()',
              'def _cls(f):\n    try:\n        f()\n    except Exception as e:\n        return type(e).__name__\n    return None']
@@ -640,6 +679,7 @@ def run(ctx):
             break
     if not ctx.quick:
         sweep(ctx, lines, expect, speclines, meta)
+    slice_table(ctx, lines, expect, speclines, meta, errcls)
     alias_cases(ctx, r, lines, expect, speclines, meta)
     got = run_driver('varsdriver', lines)
     ctx.corr_lines += len(lines)
